@@ -25,7 +25,7 @@ CHECKS = {
 CHECKS.update({
     'C02': dict(
         technique='property-based testing (Hypothesis: mutation + compression-graph grammar), bounded-exhaustive enumeration, coverage-guided fuzzing (atheris) with differential oracle',
-        text='Byte strings from four sources plus an atheris campaign (thorough) go through one oracle: no exception, work within a frozen '
+        text='Byte strings from four sources (the compression-graph grammar includes over-long names that are referred to again by pointers) plus an atheris campaign (thorough) go through one oracle: no exception, work within a frozen '
              'line/call budget measured with sys.monitoring, names <= 253 chars when valid, equality with an independent strict RFC 1035 '
              'decoder whenever that accepts. The small-alphabet block is enumerated completely; everything else is exploration.',
         note='trusts vlib/wire.py strict decoder and the frozen work budget (4x the adversarial maximum observed on the repaired tree)',
@@ -55,7 +55,7 @@ CHECKS.update({
     'C06': dict(
         technique='model-based property testing (Hypothesis histories with listener-set mutations, spy listeners, reference model)',
         text=SIM + 'per datagram the spy listeners\' calls (count, order, arguments, identity of the previous object) and the cache state '
-             'visible inside the first and second callback are compared with what CacheModel derives from the statement.',
+             'visible inside the first and second callback are compared with what CacheModel derives from the statement; listeners are added, removed and registered a second time between datagrams and from inside callbacks.',
         note='trusts CacheModel and the simulator; listeners added/removed during a datagram are exempt for that datagram',
         ref='3/C06'),
 })
@@ -64,7 +64,7 @@ CHECKS.update({
     'C03': dict(
         technique='model-based property testing (Hypothesis histories of register/update/unregister/query against ResponderModel), replies read from the simulated wire with an independent decoder',
         text=SIM + 'generated registry histories and queries (legacy port, QM, or port 5353 with the QU bit on any subset of the questions; known answers aimed at the half-TTL boundary) are answered by the real '
-             'responder; answers, TTLs and additionals on the wire are compared with ResponderModel.',
+             'responder; answers, TTLs and additionals on the wire are compared with ResponderModel; an update may fall between a query and its queued reply, after which nothing transmitted may carry a replaced record.',
         note='trusts ResponderModel, the simulator and vlib/wire.py; stated don\'t-care regions (ANY on hosts, NSEC corner cases) impose nothing',
         ref='3/C03'),
 })
@@ -103,24 +103,24 @@ CHECKS.update({
         technique='property-based testing of generated query/withdrawal interleavings in the simulator; invariant oracle over the independently decoded trace and a peer browser',
         text=SIM + 'queries placed on a grid around async_unregister_service / async_close (answers immediate, aggregated, TC-held or in the 1 s protection queue); '
              'exactly three complete TTL-0 goodbyes 125 ms apart, and afterwards no datagram carries a withdrawn record with TTL > 0; a peer browser on a second host must not re-add.',
-        note='5 s observation window after the withdrawal; own announcements completed before the withdrawal',
+        note='5 s observation window after the withdrawal; registries built by register or reached through updates; in a quarter of the unregister cases the service is still announcing',
         ref='3/C08'),
 })
 
 CHECKS.update({
     'C17': dict(
-        technique='property-based testing of generated shutdown schedules in the simulator; invariant oracle over trace, callback log, task outcomes and the loop exception handler',
+        technique='property-based testing of generated shutdown schedules in the deterministic simulator and, for the thread clause, on a real-thread world with compressed time; invariant oracle over trace, callback log, task/thread outcomes and the loop exception handler',
         text=SIM + 'async_close() is requested at generated instants (grid around registration steps, queued answers, TC holds, browser start-up, pending lookups) '
              'or aimed at the periodic purge timer to within a few event-loop iterations of 1 us-1 ms virtual cost, on a victim with an active peer and a never-removed RecordUpdateListener; nothing may be sent or called back after close returned, in-flight coroutines finish with documented outcomes, '
-             'registered services get three complete goodbyes, a second close is silent, 3 h of virtual time stay quiet.',
-        note='async path only (Zeroconf.close() from a thread shares the logic but the thread hand-off is not executed); virtual-time busy loops are reported via an iteration budget',
+             'registered services get three complete goodbyes and the last multicast about each of the instance\'s records before the sockets close carries TTL 0, a second close is silent, 3 h of virtual time stay quiet. About one case in sixty runs Zeroconf() with its own loop thread on a real selector loop (clock compressed 10x) and calls close() from a non-loop thread while calls on other threads are in flight.',
+        note='the real-thread cases are not pure functions of the case (OS scheduling): their oracle is timing-free and a violation observed once stands; virtual-time busy loops are reported via an iteration budget',
         ref='3/C17'),
 })
 
 CHECKS.update({
     'C10': dict(
         technique='property-based testing of generated learn/refresh/re-case/withdraw/clock histories in the simulator; existential ladder-search oracle over the browser\'s query instants',
-        text=SIM + 'pointer records with different TTLs are learned (also repeated inside one datagram) in any order relative to the scheduler\'s armed wake-up, refreshes with another TTL aimed at the window in which the scheduler keeps its entry; start-up schedule and question types, '
+        text=SIM + 'one or two browsers, each on one or several types (also a type with one of its subtypes, whose pointers name the same instances); pointer records with different TTLs are learned (also repeated inside one datagram) in any order relative to the scheduler\'s armed wake-up, refreshes with another TTL aimed at the window in which the scheduler keeps its entry; start-up schedule and question types, '
              'minimum spacing, a 75 %/+10 % ladder of refresh attempts per record lifetime (searched existentially) and absence of queries on stale schedules are checked over hours of virtual time.',
         note='ladder windows carry one inter-query delay of slack on both sides; expiry discovered by the engine\'s own purge timer',
         ref='3/C10'),
@@ -139,7 +139,7 @@ CHECKS.update({
 CHECKS.update({
     'C18': dict(
         technique='property-based testing of generated cache states and record arrival schedules in the simulator; oracle = availability intervals from the harness\' own injection log',
-        text=SIM + 'SRV/TXT/A/AAAA records absent, fresh, stale or expired-but-unpurged, plus arrivals on a grid around the lookup\'s query instants and its deadline; '
+        text=SIM + 'SRV/TXT/A/AAAA records absent, fresh, stale or expired-but-unpurged, plus arrivals (records in either order inside a datagram) on a grid around the lookup\'s query instants and its deadline; '
              'return time bound, True => fields from records unexpired inside the window and >= 1 address, False => SRV and address never both available, '
              'cache-first without transmission listing all unexpired addresses, QU-then-QM, and per query: fresh SRV/TXT answer held => question omitted, no unexpired answer held => question asked.',
         note='no cache-flush bits; one SRV identity per instance; same-instant ordering by sequence number',
@@ -161,7 +161,7 @@ CHECKS.update({
         technique='metamorphic property-based testing: generated traffic history run once (R) and with every datagram duplicated (D) in the deterministic simulator under keyed jitter; traces and callback logs compared',
         text=SIM + 'queries of every kind and responses with new/refreshed/goodbye/flush records, on an IPv4 or IPv6 socket; D must equal R in (time, socket, destination, decoded content) '
              'and in browser callbacks, except for a repeated unicast reply to a QU-containing datagram.',
-        note='open finding F10 (duplicated QU datagram repeats its multicast side effects) is recognised by signature, removed from the comparison and counted',
+        note='open finding F10 (duplicated QU datagram repeats its multicast side effects) is recognised by signature, removed from the comparison and counted; packets that carry the TC bit themselves are not part of it and are compared in full',
         ref='3/C16'),
 })
 
@@ -180,7 +180,7 @@ CHECKS.update({
         technique='property-based scenario generation on a simulated multi-host link plus single-datagram-loss fault enumeration (each generated schedule re-run with datagram k dropped); convergence oracle over browser callbacks and lookups',
         text=SIM + '2-5 hosts (joining at the start or just before first use), 1-6 services (one host name each, or one per machine), 1-4 browsers (question type default/QM/QU), withdrawal races against queued answers, register/update/unregister/close at generated times, 0-100 ms '
              'per-receiver delays, optional duplication; each schedule is run without loss and then with one datagram dropped (three targeted k in the quick tier, every k for '
-             'N <= 120 in the thorough tier). After 20 s every active browser must report exactly the registered instances; lookups from Added callbacks must resolve the advertised data.',
+             'N <= 120 in the thorough tier). After 20 s every active browser must report exactly the registered instances, in a third of the scenarios also 80 or 160 minutes later; lookups from Added callbacks must resolve the advertised data.',
         note='operations on one host are sequential and await the returned broadcast task; same-family address updates only; evaluations counts executed runs',
         ref='3/C07'),
 })
